@@ -27,7 +27,7 @@ ASSUMPTIONS = ["'always terminates' is checked as bounded progress: 1500 outer s
                "the best-weights rule is replayed as: best = score(initial fit); per step: if score >= best and all features "
                "selected: best = score; then if score >= keep_threshold*best: best weights = that step's weights"]
 EVAL_COUNTER = "paths"
-REQUIRED = {"quick": {"paths_with_alpha_below_1e-8": 10, "paths": 250, "paths_with_steps": 150, "steps_replayed": 1500, "best_weights_compared": 200,
+REQUIRED = {"quick": {"paths_with_non_monotone_feature_count": 4, "paths_with_alpha_below_1e-8": 10, "paths": 250, "paths_with_steps": 150, "steps_replayed": 1500, "best_weights_compared": 200,
                       "restorations_checked": 80, "nan_faults_injected": 20, "differential_pairs": 15,
                       "warnings_expected_and_seen": 30, "early_stops_replayed": 100},
             "thorough": {"paths": 4000, "steps_replayed": 30000, "nan_faults_injected": 400}}
@@ -274,6 +274,8 @@ def check_log(ctx, st, est, X, y, params, args, ret, exc, warns, alpha0, nan_at,
         return
     if T:
         ctx.count("paths_with_steps")
+        if any(nfeat[k + 1] > nfeat[k] for k in range(T - 1)):
+            ctx.count("paths_with_non_monotone_feature_count")
     # ---- alpha recurrence -------------------------------------------------------------------------------
     a = a0
     for k in range(T):
@@ -417,6 +419,17 @@ def make_case(seed, i):
             if "groups" in params:
                 params["groups"] = None
             y = None
+    if pre is None and rng.random() < 0.15:
+        # redundant features and mini-batches: a discarded twin comes back at a later step, the feature count of the path
+        # is no longer monotone and "the last step that reached the threshold" need not be the one with the fewest features
+        X = gen.with_twins(rng, X)
+        params["batch_size"] = int(max(2, len(X) // int(rng.integers(3, 10))))
+        if "groups" in params:
+            params["groups"] = None
+        params["alpha"] = float([0.02, 0.1, 0.5][int(rng.integers(0, 3))])
+        args["alpha_multiplier"] = float(rng.uniform(1.1, 1.5))
+        args["keep_threshold"] = float(rng.uniform(0.3, 0.95))
+        args["min_features"] = 1
     args["early_stopping_factor"] = float([0.99, 0.9, 0.5, 1.0][int(rng.integers(0, 4))])
     args["max_patience"] = int(rng.integers(1, 11))
     args["restore_best_weights"] = bool(rng.random() < 0.7)
